@@ -1444,7 +1444,7 @@ class Translator:
             self.bad(st, "try with else/finally or without a handler")
         hs = []
         for h in st.handlers:
-            if isinstance(h.type, ast.Name) and h.type.id == "Exception":
+            if h.type is None or (isinstance(h.type, ast.Name) and h.type.id == "Exception"):
                 hs.append(("*", list(h.body)))                        # every exception of the subset is an Exception
                 continue
             if not (isinstance(h.type, ast.Name) and h.type.id in self.EXC):
